@@ -20,7 +20,7 @@ func init() {
 		prop := p
 		fams := []string{"uniform", "productive", "nullable", "prec", "prec-sep", "separators", "lalr", "dup-rules"}
 		if prop == "C02" {
-			fams = []string{"lalr", "separators", "separators", "productive-small", "nullable", "uniform-small"}
+			fams = []string{"lalr", "separators", "separators", "samehandle", "samehandle", "productive-small", "nullable", "uniform-small"}
 		}
 		replay := func(c *Ctx, raw json.RawMessage) string {
 			var gc GCase
